@@ -202,7 +202,7 @@ def tlc(specdir, module, cfg, workers=None, timeout=900, simulate=None, depth=No
         res.error = "temporal"
     elif re.search(r"Action property \S+ .*is violated", o):
         res.error = "actionprop:" + re.search(r"Action property (\S+)", o).group(1)
-    elif "The postcondition" in o and "violated" in o or "Postcondition" in o and "violated" in o:
+    elif re.search(r"Postcondition \S+ .*is (false|violated)", o) or ("ostcondition" in o and "violated" in o):
         res.error = "postcondition"
     elif re.search(r"Assumption .* is false", o):
         res.error = "assumption"
@@ -229,7 +229,7 @@ def parse_dot(path):
     edges: list of (src, dst, action-label); inits: set of ids with style=filled."""
     nodes, edges, inits = {}, [], set()
     node_re = re.compile(r'^(-?\d+) \[label="(.*)"(,style = filled)?\];?$')
-    edge_re = re.compile(r'^(-?\d+) -> (-?\d+) \[label="(.*?)",')
+    edge_re = re.compile(r'^(-?\d+) -> (-?\d+) \[label="((?:[^"\\]|\\.)*)"')
     with open(path) as fh:
         for line in fh:
             line = line.rstrip("\n")
@@ -457,3 +457,78 @@ def drive_cases(chk, binary, args_before, cases, args_after=(), timeout=1200, ta
     chk.cov["evaluations"] += int(summary.get("cases", 0))
     chk.cov["distinct_nontrivial"] += int(summary.get("nontrivial", 0))
     return summary
+
+
+def parse_action(label):
+    """'ClientMatch("c1","unknown",0)' -> ['ClientMatch', 'c1', 'unknown', 0]"""
+    m = re.match(r"^(\w+)(?:\((.*)\))?$", label.strip())
+    if not m:
+        return [label]
+    out = [m.group(1)]
+    if m.group(2) is not None and m.group(2) != "":
+        for a in re.findall(r'"(?:[^"\\]|\\.)*"|[^,]+', m.group(2)):
+            a = a.strip()
+            if a.startswith('"'):
+                out.append(json.loads(a))
+            elif re.match(r"^-?\d+$", a):
+                out.append(int(a))
+            elif a in ("TRUE", "FALSE"):
+                out.append(a == "TRUE")
+            else:
+                out.append(a)
+    return out
+
+
+def parse_sim_file(path):
+    """Action labels (parsed) of one behaviour written by `tlc -simulate file=...`."""
+    steps = []
+    with open(path) as fh:
+        for line in fh:
+            m = re.match(r"^\\\* <(.*) line \d+, col \d+ to line \d+, col \d+ of module \w+>", line)
+            if m and not m.group(1).startswith("Init"):
+                steps.append(parse_action(m.group(1)))
+    return steps
+
+
+def simulate_behaviours(specdir, module, cfg, num, depth, seed, timeout=600, files=None):
+    """Run tlc -simulate and return (TLCResult, list of behaviours as parsed action lists)."""
+    d = scratch("sim-%s-%d" % (module, _tlc_seq[0] + 1))
+    prefix = os.path.join(d, "b")
+    r = tlc(specdir, module, cfg, workers=1, simulate="file=%s,num=%d" % (prefix, num), depth=depth, seed=seed,
+            timeout=timeout, keep_prints=False, files=files)
+    behs = []
+    for f in sorted(os.listdir(d)):
+        if f.startswith("b_"):
+            behs.append(parse_sim_file(os.path.join(d, f)))
+    shutil.rmtree(d, ignore_errors=True)
+    return r, behs
+
+
+def go_test_compile_inpkg(pkg_rel, files, out_name, tags="verif", race=False, go=GO_DEFAULT, linkflag=False, timeout=900):
+    """`go test -c` of /repo/<pkg_rel> with harness files injected through -overlay; returns the test binary."""
+    ov = {"Replace": {}}
+    for f in files:
+        ov["Replace"][os.path.join(REPO, pkg_rel, os.path.basename(f))] = f
+    d = scratch("overlay")
+    ovf = os.path.join(d, "overlay-c-%s.json" % re.sub(r"\W", "_", pkg_rel + out_name))
+    with open(ovf, "w") as fh:
+        json.dump(ov, fh)
+    out = os.path.join(scratch("bin"), out_name)
+    cmd = [go, "test", "-c", "-o", out, "-modfile=" + repo_modfile(), "-overlay", ovf, "-vet=off", "-tags", tags]
+    if linkflag:
+        cmd.append(LINKFLAGS)
+    if race:
+        cmd.append("-race")
+    cmd.append("./" + pkg_rel)
+    r = run(cmd, cwd=REPO, env=goenv(), timeout=timeout)
+    if r.rc != 0 or r.timed_out or not os.path.exists(out):
+        raise Inconclusive("go test -c ./%s failed:\n%s" % (pkg_rel, r.out[-4000:]))
+    return out
+
+
+def run_parallel(jobs, workers=None):
+    """jobs: list of zero-argument callables; returns their results in order."""
+    import concurrent.futures
+    with concurrent.futures.ThreadPoolExecutor(max_workers=workers or NCPU) as ex:
+        futs = [ex.submit(j) for j in jobs]
+        return [f.result() for f in futs]
